@@ -94,6 +94,13 @@ def main():
             results[c] = {"rc": r.returncode, "line": line[-1][:200] if line else r.stdout[-300:], "wall_s": round(time.time() - t0, 1), "first": first}
         meta["checks"] = results
         meta["detected_by"] = [c for c, v in results.items() if v["rc"] == 1]
+        own = name[:3]
+        if own in results and results[own]["rc"] == 0 and "--no-thorough" not in sys.argv:
+            # the quick tier of the property's own check missed it: try the thorough tier of that check
+            t0 = time.time()
+            r = subprocess.run([os.path.join(VERIF, "check"), own, "thorough"], env=env, stdout=subprocess.PIPE, stderr=subprocess.STDOUT, text=True)
+            line = [l for l in r.stdout.splitlines() if l.startswith(("VIOLATION", "OK "))]
+            meta["own_check_thorough"] = {"rc": r.returncode, "line": line[-1][:200] if line else r.stdout[-300:], "wall_s": round(time.time() - t0, 1)}
         return finish(meta, name, src)
     finally:
         sh(["git", "-C", "/repo", "worktree", "remove", "--force", wt])
